@@ -1,17 +1,11 @@
 use ivp::prelude::*;
-use ivp::methods::DOP853;
-use ivp::solout::SolOut;
-struct P;
-const X0:f64=-51.132; const XE:f64=-53.5941499;
-fn tau(t:f64)->f64{ let span=(XE-X0).abs(); let th=4.245333700000001; let a=th/span; let w=2.0*std::f64::consts::PI*2.0/span; let b=-0.532437*a/w; let d=t-X0; (a*d+b*(w*d).sin())*-1.0 }
-fn dtau(t:f64)->f64{ let span=(XE-X0).abs(); let th=4.245333700000001; let a=th/span; let w=2.0*std::f64::consts::PI*2.0/span; let b=-0.532437*a/w; let d=t-X0; (a+b*w*(w*d).cos())*-1.0 }
-impl IVP for P { fn ode(&self, x: f64, y: &[f64], dy: &mut [f64]) { let s=1.3166225; let sinv=1.0/s; let u=0.0+sinv*y[0]; let g=-0.4330935*u; dy[0] = (0.0+s*g)*dtau(x); } }
-struct S{last:f64}
-impl SolOut for S { fn solout(&mut self, xold:f64, x:&mut f64, y:&mut [f64], _i:Option<&StepInterpolant<'_>>)->ControlFlag{
-  let y0=1.0682876*1.3166225; let ex=y0*(-0.4330935*tau(*x)).exp(); println!("x={:.6} h={:.5} err={:.3e} dlocal={:.3e}",x,*x-xold,(y[0]-ex).abs(), ((y[0]-ex).abs()-self.last)); self.last=(y[0]-ex).abs(); ControlFlag::Continue } }
+struct P{kf:f64,kb:f64}
+impl IVP for P { fn ode(&self, _x: f64, y: &[f64], dy: &mut [f64]) { let fl=self.kf*y[0]-self.kb*y[1]; dy[0]=-fl; dy[1]=fl; } }
 fn main(){
-    let y0=1.0682876*1.3166225;
-    let mut s=S{last:0.0};
-    let r=DOP853::builder().build().solve(&P,X0,&[y0],XE,ivp::methods::Tolerance::Scalar(0.0),ivp::methods::Tolerance::Scalar(2.912178558729314e-12),Some(&mut s)).unwrap();
-    println!("{:?} {:?}",r.status,r.steps);
+    let kf=10f64.powf(6.138356); let kb=0.795739*kf*0.1;
+    for m in [Method::BDF, Method::RADAU] {
+    let o=Options::builder().method(m).rtol(2.777378057091533e-05).atol(2.777378057091533e-05*0.005273804178760979).max_steps(200000).build();
+    let s=solve_ivp(&P{kf,kb},-10.0,-10.0+3.8050195,&[0.0987, 0.902564],o).unwrap();
+    println!("{:?} status={:?} nacc={} nrej={} nfev={} njev={} nlu={}",m,s.status,s.naccpt,s.nrejct,s.nfev,s.njev,s.nlu);
+    }
 }
